@@ -37,7 +37,8 @@ class Run:
 
 
 class CompileMonitor:
-    def __init__(self, count=None, snapshots=True):
+    def __init__(self, count=None, snapshots=True, snap_before=False):
+        self.snap_before = snap_before
         self.count = count or (lambda *a, **k: None)
         self.runs = []
         self.cur = None
@@ -99,6 +100,9 @@ class CompileMonitor:
             return
         op = frame.f_locals.get("op")
         ev = {"op": op, "cls": type(op).__name__, "outcomes": [], "state": None, "creg": None, "kind": "gate"}
+        if self.snap_before:
+            st = frame.f_locals.get("state")
+            ev["state_before"] = snap_state(st.rep_data) if hasattr(st, "rep_data") else None
         self.open.append(ev)
 
     def _g_ret(self, frame, ret):
